@@ -89,13 +89,14 @@ def run(ctx):
     for p in ("Vout", "bias"):
         check_type_guard(ctx, "C05.4", fi, p, "TypeError", ["int", "float"], ["str", "complex", "list"])
         check_range_guard(ctx, "C05.4", fi, p, Reject(lambda x: abs(x) >= 48, [48, -48]), "ValueError", f"|{p}| >= 48", accept_sample=[0, Fraction(479, 10), -47])
-    check_type_guard(ctx, "C05.4", fi, "c", "TypeError", ["int", "float"], ["str", "list"])
-    check_type_guard(ctx, "C05.4", fi, "m", "TypeError", ["int"], ["float", "str"])
-    check_range_guard(ctx, "C05.4", fi, "m", Reject(lambda x: x <= 0, [0]), "ValueError", "m <= 0", accept_sample=[1, 4])
-    check_type_guard(ctx, "C05.4", fi, "T", "TypeError", ["int"], ["float", "str"])
+    G = {"pulse_shape": "gaussian"}   # c, m, T parametrise the Gaussian pulse only
+    check_type_guard(ctx, "C05.4", fi, "c", "TypeError", ["int", "float"], ["str", "list"], assumptions=G)
+    check_type_guard(ctx, "C05.4", fi, "m", "TypeError", ["int"], ["float", "str"], assumptions=G)
+    check_range_guard(ctx, "C05.4", fi, "m", Reject(lambda x: x <= 0, [0]), "ValueError", "m <= 0", accept_sample=[1, 4], assumptions=G, integer=True)
+    check_type_guard(ctx, "C05.4", fi, "T", "TypeError", ["int"], ["float", "str"], assumptions=G, valuation=[(S("gv.sps"), 8)])
     for sps in (4, 25):
         check_range_guard(ctx, "C05.4", fi, "T", Reject(lambda x, s=sps: x <= 0 or x > 2 * s, [0, 2 * sps]), "ValueError", f"T <= 0 or T > 2*sps (sps={sps})", env={"sps": Fraction(sps)},
-                          accept_sample=[1, sps, 2 * sps])
+                          accept_sample=[1, sps, 2 * sps], assumptions=G, integer=True)
     # ---------------- SAMPLER
     fs_ = pkg.func("devices.SAMPLER")
     for noise in ("none", "notnone"):
